@@ -3,6 +3,8 @@
 # usage: sweep.sh "<seeds>" [tier]
 cd "$(dirname "$0")"
 SEEDS="${1:-1 2 3 4 5}"; TIER="${2:-quick}"
+# under `vp run --with-repo` use the snapshot of /repo, so that work in /repo cannot disturb the sweep
+[ -n "${VP_RUN_REPO:-}" ] && export VERIF_REPO="$VP_RUN_REPO"
 bad=0
 for s in $SEEDS; do
   for i in 01 02 03 04 05 06 07 08 09 10 11 12 13 14 15 16 17 18 19 20; do
